@@ -690,7 +690,9 @@ static int scan_dir(const char* dir, SCAN_OPTIONS* scan_opts)
       // skip it in those cases.
       else if (S_ISLNK(st.st_mode))
       {
-        char buf[2];
+        // One byte more than "..", otherwise every target that merely starts
+        // with ".." (e.g. "../dir/file") is truncated to ".." and skipped.
+        char buf[3];
         int len = readlink(full_path, buf, sizeof(buf));
 
         if ((len == 1 && buf[0] == '.') ||
